@@ -150,7 +150,7 @@ package piece
 //@     invariant [d2]    InvD2(ps)
 //@     invariant [ex]    InvEx(ps)
 //@     invariant [others] forall i int :: InR(ps, i) && i != int(index) && ps.pieces[i].data != nil ==> samerow_(ps.pieces[i].data, atlock_(ps.pieces[i].data))
-//@   props    C01 C03 C09 C14
+//@   props    C01 C03
 
 // Finalise: incomplete -> busy under the lock, SHA-1 outside it on the buffer
 // this activation owns (rely [mine]), then busy -> complete only if the digest
